@@ -132,7 +132,7 @@ def replay_events(events, build="osmosis", profile=None):
         hist.time = int(boot["time"])
         hist.height = boot["height"]
         from vlib.implworld import ImplWorld
-        h.reset("staking", hist.su.chain_prefix, hist.su.contract)
+        h.reset("staking", hist.su.chain_prefix, hist.su.contract, getattr(hist.su, "chain_id", None))
         hist.iw = ImplWorld(h, hist.su.contract, hist.su.chain_prefix, hist.time, hist.height)
         hist.events.append(events[0])
         tx = hist.iw.run_exec(boot["sender"], [], boot["msg"], None, 0, entry="instantiate")
@@ -155,6 +155,7 @@ def SetupFromBoot(boot):
     su = Setup(random.Random(0), {"equal_prefixes": eq})
     su.contract = boot["self"]
     su.chain_prefix = boot["chain_prefix"]
+    su.chain_id = boot.get("chain_id", "osmosis-1")
     su.admin = boot["sender"]
     su.staker = m["native_chain_config"]["staker_address"]
     su.collector = m["native_chain_config"]["reward_collector_address"]
